@@ -162,7 +162,8 @@ Qed.
 Lemma ag_gate names x y : gate NewCode names x = Ok y -> appends_good x y.
 Proof.
   unfold gate. destruct (negb (is_file (fst x) p_info)); [intros H; injection H as <-; apply ag_refl|].
-  destruct (_ && _); [|discriminate]. intros H. injection H as <-. apply ag_write_run_info.
+  destruct (_ && _); [|discriminate]. intros H.
+  replace y with (write_run_info NewCode names x) by congruence. apply ag_write_run_info.
 Qed.
 
 Lemma init_step_err v st l e : fold_left (init_step v st) l (Err e) = Err e.
@@ -278,3 +279,41 @@ End NoRedo.
 (* reading a FileArray back from the file system: a cell is missing exactly when there is no file *)
 Lemma cell_of_missing s0 p : cell_missing (cell_of s0 p) = negb (is_file s0 p).
 Proof. unfold cell_of, is_file. destruct (dict_get (files s0) p) as [[|[v|cells|]]|]; reflexivity. Qed.
+
+(* ------------------------------------------------------------------ finite checks on the reference pipelines *)
+From Verif Require Import Model.CrashFSRef Proofs.CrashRef_1_FileSt Proofs.CrashRef_1_DictSt Proofs.CrashRef_2_FileSt Proofs.CrashRef_2_DictSt Proofs.CrashRef_3_FileSt Proofs.CrashRef_3_DictSt.
+
+Lemma ref_family_all_crashes_ok :
+  forallb (fun r => all_crashes_ok NewCode FileSt r && all_crashes_ok NewCode DictSt r) ref_family = true.
+Proof.
+  unfold ref_family. cbn [forallb].
+  rewrite ref1_FileSt_ok, ref1_DictSt_ok, ref2_FileSt_ok, ref2_DictSt_ok, ref3_FileSt_ok, ref3_DictSt_ok. reflexivity.
+Qed.
+
+Theorem ref_family_resume r st k1 :
+  In r ref_family -> In st [FileSt; DictSt] -> k1 <= n_events1 NewCode st r ->
+  resume_ok NewCode st r k1 None = true
+  /\ forall k2, k2 <= n_events2 NewCode st r k1 -> resume_ok NewCode st r k1 (Some k2) = true.
+Proof.
+  intros Hr Hst Hk. pose proof ref_family_all_crashes_ok as H. rewrite forallb_forall in H.
+  specialize (H r Hr). apply andb_true_iff in H as [HF HD].
+  assert (HA : all_crashes_ok NewCode st r = true) by (destruct Hst as [<-|[<-|[]]]; assumption).
+  unfold all_crashes_ok in HA. cbv zeta in HA. rewrite forallb_forall in HA.
+  assert (Hin : In k1 (seq 0 (S (length (o_events (ref_full NewCode st r)))))) by (apply in_seq; unfold n_events1 in Hk; lia).
+  specialize (HA k1 Hin). apply andb_true_iff in HA as [A1 A2]. split; [exact A1|].
+  intros k2 Hk2. rewrite forallb_forall in A2. unfold resume_ok. apply A2. apply in_seq. unfold n_events2 in Hk2. lia.
+Qed.
+
+(* what the code did before the repair: witnesses of failing resumes *)
+Lemma old_code_refuted :
+  (* torn run_info.json -> "cannot use cleanup=False" *)
+  o_result (ref_run OldCode FileSt ref1 false (crash (o_events (ref_full OldCode FileSt ref1)) 3 empty_fs)) = Err ValueError
+  (* run_info.json complete, inputs not yet written *)
+  /\ o_result (ref_run OldCode FileSt ref1 false (crash (o_events (ref_full OldCode FileSt ref1)) 6 empty_fs)) = Err ValueError
+  (* torn element file *)
+  /\ o_result (ref_run OldCode FileSt ref1 false (crash (o_events (ref_full OldCode FileSt ref1)) 17 empty_fs)) = Err OtherError
+  (* dict storage: folder created, dict_array.cloudpickle not yet *)
+  /\ o_result (ref_run OldCode DictSt ref1 false (crash (o_events (ref_full OldCode DictSt ref1)) 21 empty_fs)) = Err FileNotFoundError
+  (* while the uninterrupted runs succeed *)
+  /\ is_ok (o_result (ref_full OldCode FileSt ref1)) = true /\ is_ok (o_result (ref_full OldCode DictSt ref1)) = true.
+Proof. vm_compute. repeat split; reflexivity. Qed.
